@@ -233,6 +233,27 @@ type Node struct {
 	msgs []Msg
 }
 
+// bpKeyAt[i] = key of the producer that has index i in the producer cluster
+// (the genesis BP list is re-ordered by system.BuildOrderedCandidates).
+var bpKeyAt []crypto.PrivKey
+
+func (n *Node) initBPOrder() {
+	bpKeyAt = nil
+	for _, s := range n.CS.GetGenesisInfo().BPs {
+		for i := range BPIDs {
+			if types.IDB58Encode(BPIDs[i]) == s {
+				bpKeyAt = append(bpKeyAt, BPKeys[i])
+			}
+		}
+	}
+	if len(bpKeyAt) != n.Net.NBP {
+		panic("nodekit: cannot map genesis BPs to keys")
+	}
+}
+
+// BPKeyAt returns the signing key of the producer with cluster index p.
+func BPKeyAt(p int) crypto.PrivKey { return bpKeyAt[p] }
+
 var (
 	baseDir  string
 	baseOnce sync.Once
@@ -325,6 +346,7 @@ func NewNode(net Net, name string) (*Node, error) {
 	}
 	n.DPoS = d
 	cs.SetChainConsensus(d)
+	n.initBPOrder()
 	focused = n
 	if err := cs.Recover(); err != nil {
 		return n, err
@@ -513,9 +535,11 @@ func (n *Node) Produce(parent *types.Block, txs []*types.Tx, p int, variant int,
 		return nil, err
 	}
 	blk.SetConfirms(confirms)
-	if err := blk.Sign(BPKeys[p]); err != nil {
+	if err := blk.Sign(bpKeyAt[p]); err != nil {
 		return nil, err
 	}
+	blk.Hash = nil
+	blk.BlockHash() // caches the id in blk.Hash, as the block factory's logging does
 	return &Built{Block: blk, BState: bs, Skipped: len(txs) - len(blk.GetBody().GetTxs()), Receipts: bs.Receipts().Get()}, nil
 }
 
@@ -543,9 +567,10 @@ func Resign(b *types.Block, p int) {
 	b.Header.Sign = nil
 	b.Header.PubKey = nil
 	b.Hash = nil
-	if err := b.Sign(BPKeys[p]); err != nil {
+	if err := b.Sign(bpKeyAt[p]); err != nil {
 		panic(err)
 	}
+	b.BlockHash()
 }
 
 // ---------------------------------------------------------------- dumps
@@ -695,3 +720,68 @@ func short(s string) string {
 }
 
 func protoDecode(b []byte, st *types.State) error { return encproto.Decode(b, st) }
+
+// ---------------------------------------------------------------- store snapshots / restart
+
+// Stores is a deep snapshot of a node's two stores.
+type Stores struct{ Chain, State map[string][]byte }
+
+func (n *Node) storeDirs() (string, string) {
+	return filepath.Join(n.Dir, "chain"), filepath.Join(n.Dir, "state")
+}
+
+// SaveStores snapshots the node's chain and state stores.
+func (n *Node) SaveStores() *Stores {
+	c, s := n.storeDirs()
+	return &Stores{Chain: db.VerifSnapshot(c), State: db.VerifSnapshot(s)}
+}
+
+// Restart stops the node, optionally replaces the content of its stores, and
+// starts a new node on them (NewChainService + consensus + Recover).
+func (n *Node) Restart(st *Stores) (*Node, error) {
+	n.Stop()
+	if st != nil {
+		c, s := n.storeDirs()
+		db.VerifRestore(c, st.Chain)
+		db.VerifRestore(s, st.State)
+	}
+	return NewNode(n.Net, filepath.Base(n.Dir))
+}
+
+// ResetGlobals re-initialises the state-derived process globals from this
+// node's committed state (after a produced block was discarded, like a
+// restart would).
+func (n *Node) ResetGlobals() {
+	focused = nil
+	n.Focus()
+}
+
+// StoreDigest is a digest of everything persistent (both stores) plus the
+// in-memory pointers the property speaks about (best block, state root, DPoS status, orphans).
+func (n *Node) StoreDigest() string {
+	h := sha256.New()
+	st := n.SaveStores()
+	for _, m := range []map[string][]byte{st.Chain, st.State} {
+		ks := make([]string, 0, len(m))
+		for k := range m {
+			ks = append(ks, k)
+		}
+		sort.Strings(ks)
+		for _, k := range ks {
+			fmt.Fprintf(h, "%d:%s=%d:", len(k), k, len(m[k]))
+			h.Write(m[k])
+		}
+		h.Write([]byte("|"))
+	}
+	fmt.Fprintf(h, "best=%s root=%x orph=%v dpos=%s", n.Best().ID(), n.CS.SDB().GetRoot(), n.CS.VerifOrphans(), n.DPoS.VerifStatusDigest())
+	return fmt.Sprintf("%x", h.Sum(nil)[:16])
+}
+
+// JSON marshals v (panics on error).
+func JSON(v interface{}) []byte {
+	b, err := json.Marshal(v)
+	if err != nil {
+		panic(err)
+	}
+	return b
+}
